@@ -13,6 +13,8 @@ from lean_emit import Emitter, file_header, FILE_FOOTER
 
 REPO = os.environ.get('VERIF_REPO', '/repo')
 SRC = REPO + '/src/alpaqa/include/alpaqa/implementation/inner/fista.tpp'
+# the step-size backtracking loop: `while (!stop_signal.stop_requested() && curr->L < params.L_max && qub_violated(*curr))`
+QUB_WHILE = r'while\s*\(\s*!\s*stop_signal\s*\.\s*stop_requested\s*\(\s*\)\s*&&\s*curr->L\s*<\s*params\.L_max'
 
 
 def nfc(s):
@@ -62,11 +64,13 @@ def main(out_path):
          doc='fista.tpp initial step size', out_types={nfc('curr.γ'): 'S'})
 
     # ---- backtracking update inside the quadratic-upper-bound loop --------------------------
-    hdr, wbody = cp.find_region(body, r'while\s*\(\s*curr->L\s*<\s*params\.L_max')
+    hdr, wbody = cp.find_region(body, QUB_WHILE)
     cond = cp.parse_expression(hdr[hdr.index('(') + 1:hdr.rindex(')')])
     cond_txt = repr(cond)
     if 'qub_violated' not in cond_txt:
         raise cp.TranslationError('QUB loop condition does not call qub_violated')
+    if 'stop_requested' not in cond_txt:
+        raise cp.TranslationError('QUB loop condition does not poll the stop flag (Model/Fista.lean `qubLoop` does)')
     ss_all = cp.parse_statements(wbody)
     upd = [s for s in ss_all if s[0] == 'expr' and s[1][0] == 'bin' and s[1][1] in ('/=', '*=')]
     calls = [cp.ast_hash([s]) for s in ss_all if s not in upd]
@@ -84,7 +88,7 @@ def main(out_path):
 
     # ---- ∇ψ(x̂) is evaluated after the backtracking loop (at the accepted step) ------------------
     # Model/Fista.lean `proxStage` = firstStep; qubLoop; withGradHat — pinned here by position.
-    w = re.search(r'while\s*\(\s*curr->L\s*<\s*params\.L_max', body)
+    w = re.search(QUB_WHILE, body)
     wend = cp.match_brace(body, body.index('{', w.end()))
     crit = body.index('calc_error_stop_crit')
     gh = [m_.start() for m_ in re.finditer(nfc(r'if\s*\(\s*need_grad_ψx̂\s*\)\s*eval_grad_ψx̂\s*\(\s*\*curr\s*\)\s*;'), body)]
